@@ -96,7 +96,8 @@ def drive(sc):
 
 
 def model_runs(tier):
-    return [{"module": "MC_C10", "constants": {"SMax": 9 if tier == "quick" else 20}}]
+    return [{"module": "MC_C10", "constants": {"SMax": 9 if tier == "quick" else 20}},
+            {"tlaps": "proofs/KernelProofs.tla"}]      # clip / mirror theorems for all integers
 
 
 CHECK = PropertyCheck(
